@@ -225,4 +225,8 @@ class UFNorm(object):
         s.add(z3.Not(g))
         r = str(s.check())
         self.stats["solver_s"] += time.time() - t0
+        from . import crosscheck
+
+        if crosscheck.enabled():
+            crosscheck.check(list(s.assertions()), r)
         return r, (s.model() if r == "sat" else None)
